@@ -117,6 +117,17 @@ def bounded_data_received(opts):
     import random
     rnd = random.Random(opts.get("seed", 0))
     frame_pool = [(1, b""), (5, b"a"), (127, b"bc"), (128, b"d" * 3), (300, b"e" * 130), (16384, b"f" * 2)]
+    # payloads well above 16384 bytes (the property's quantifier), with a few cuts each
+    for big in (16385, 40000, 70000):
+        frames = ((9, b"h" * big), (2, b"k"))
+        sl = len(_frames_bytes(frames))
+        for cuts in ((), (1,), (3,), (sl // 2,), (sl - 2,), (2, sl - 1)):
+            try:
+                err = data_received_check(frames, cuts, bytes)
+            except Exception as e:      # noqa: BLE001
+                err = f"raised {type(e).__name__}: {e}"
+            if err:
+                return [{"frames": [(t, len(p)) for t, p in frames], "cuts": list(cuts), "chunk_type": "bytes", "error": err[:200]}]
     bad = []
     # (a memoryview with a wider item size counts items, not bytes, in len(): the property says "any bytes-like type")
     mks = [bytes, bytearray, lambda b: memoryview(bytes(b)), lambda b: memoryview(bytes(b)).cast("H") if len(b) and len(b) % 2 == 0 else memoryview(bytes(b))]
